@@ -239,7 +239,7 @@ def run(case, tape=None):
                 if use_buf:
                     cm.poison(pool[2])
                 try:
-                    sw.transpose(pool[ia], pool[ib], cur, nxt, pool[2] if use_buf else None)
+                    sw.transpose(pool[ia], pool[ib], cm.fresh(cur), cm.fresh(nxt), pool[2] if use_buf else None)
                 except (AssertionError, ValueError, TypeError) as e:
                     # arrays that are views of a larger array may be refused (the shipped code asserts that it owns
                     # the memory it reshapes); accepted, they must be handled correctly
@@ -249,7 +249,7 @@ def run(case, tape=None):
             else:
                 buf = cm.poison(np.empty(bsize, dtype=dt)) if use_buf else None
                 cm.poison(b)
-                sw.transpose(a, b, cur, nxt, buf)
+                sw.transpose(a, b, cm.fresh(cur), cm.fresh(nxt), buf)
             want = cm.local(G, ld)
             got = b[:ld.size].reshape(ld.shape)
             if not cm.bits_equal(got, want):
